@@ -25,7 +25,7 @@ def validate(module, cfg_lines, traces, tag, *, invariants=(), properties=(), ti
     lines += list(cfg_lines)
     lines += ["INVARIANT " + i for i in invariants]
     lines += ["PROPERTY " + p for p in properties]
-    cfg = write_cfg(tag, lines)
+    cfg = write_cfg("%s-%d" % (tag, os.getpid()), lines)      # (unique per process: several checks may run side by side)
     e = {"TRACES": tin, "OUTF": tout}
     if env:
         e.update(env)
